@@ -193,7 +193,7 @@ def parse_layout(src, struct_name, nth=0):
         if not nom:
             if ty not in PRIM:
                 raise Unrecognised("struct %s.%s: type %s without nom attribute" % (struct_name, name, ty))
-            fields.append((name, ("wire", PRIM[ty])))
+            fields.append((name, ("wire", PRIM[ty]), PRIM[ty]))
             continue
         if len(nom) != 1:
             raise Unrecognised("struct %s.%s: several nom attributes" % (struct_name, name))
@@ -201,12 +201,12 @@ def parse_layout(src, struct_name, nth=0):
         mv = re.fullmatch(r'#\[nom\(Value = "(\d+)"\)\]', a)
         mp = re.fullmatch(r"#\[nom\(Value\(ProtocolTypes::from\(([a-z_0-9]+)\)\)\)\]", a)
         mi = re.fullmatch(r'#\[nom\(Map = "Ipv4Addr::from", Parse = "be_u32"\)\]', a)
-        if mv:
-            fields.append((name, ("const", int(mv.group(1)))))
-        elif mp:
-            fields.append((name, ("protoOf", mp.group(1))))
+        if mv and ty in PRIM:
+            fields.append((name, ("const", int(mv.group(1))), PRIM[ty]))
+        elif mp and ty == "ProtocolTypes":
+            fields.append((name, ("protoOf", mp.group(1)), 1))
         elif mi and ty == "Ipv4Addr":
-            fields.append((name, ("wire", 4)))
+            fields.append((name, ("wire", 4), 4))
         else:
             raise Unrecognised("struct %s.%s: nom attribute %s" % (struct_name, name, a))
     return fields
@@ -583,9 +583,9 @@ def gen():
 
 
 def layout_lean(fields):
-    names = [n for n, _ in fields]
+    names = [f[0] for f in fields]
     items = []
-    for n, k in fields:
+    for n, k, tw in fields:
         if k[0] == "wire":
             ks = ".wire %d" % k[1]
         elif k[0] == "const":
@@ -594,7 +594,7 @@ def layout_lean(fields):
             if k[1] not in names:
                 raise Unrecognised("protoOf source %s" % k[1])
             ks = ".protoOf %d" % names.index(k[1])
-        items.append("{ name := %s, kind := %s }" % (lean_str(n), ks))
+        items.append("{ name := %s, kind := %s, tw := %d }" % (lean_str(n), ks, tw))
     return "[\n    " + ",\n    ".join(items) + " ]"
 
 
